@@ -21,6 +21,9 @@ CHECKS = {
  "C20": ("exhaustive enumeration (singles, all ordered pairs, prefix triples) + property-based testing (rapid) of option lists against a fold oracle; cross-check of README, -h and Features tags",
          "Every documented option in every form alone and in all ordered pairs is evaluated in-process (two entry paths) against an oracle that folds the assignments over the documented defaults and applies only documented implications; rapid draws longer lists; the binary is run for invalid values.",
          "Trusted: the README table / -h text as the statement of what each option documents."),
+ "C19": ("property-based testing (rapid) over job counts x GOMAXPROCS x fault sets x gate schedules, with build-tag hooks perturbing the interleaving; black-box oracle on Persist's result and the directory; -race in thorough",
+         "Generated schedules and fault sets drive Generator.Persist through the exported API with a gating post-processor; the oracle checks success/error, exact directory content, at-most-once processing, nothing in flight after return and a deadlock watchdog. Interleavings are perturbed (gates, yields), not enumerated: detection of an ordering bug is probabilistic, silence on correct code is deterministic.",
+         "Trusted: the Go runtime scheduler for perturbation; the oracle never depends on hook events."),
 }
 NOT_YET = "check not built yet (work in progress; the technique applies, see DESIGN.md)"
 
